@@ -167,7 +167,13 @@ def _space_for(algo, want_supported):
                      spaces.flat_space(2, 3, kinds=('DOUBLE', 'INTEGER',
                                                     'CATEGORICAL')), cond)
   if algo in ('bocs', 'harmonica'):
-    return st.one_of(spaces.flat_space(1, 3), cond,
+    # incl. spaces that MIX booleans with other kinds: a guard that only
+    # looks for "some boolean" would let them through
+    mixed = spaces.flat_space(2, 4, kinds=('BOOL', 'BOOL', 'INTEGER',
+                                           'CATEGORICAL', 'DOUBLE')).filter(
+        lambda sp: len({p['kind'] for p in sp['params']}) >= 2
+        and any(p['kind'] == 'BOOL' for p in sp['params']))
+    return st.one_of(spaces.flat_space(1, 3), cond, mixed, mixed,
                      spaces.flat_space(1, 3, kinds=('BOOL',)))
   return cond
 
@@ -265,11 +271,25 @@ def _session(draw, algos, entry, seeding=False, always_supported=False):
   # random_sample.sample_parameters is a helper without a refusal contract:
   # only the flat spaces its callers use are generated for it.
   want_supported = always_supported or fam == 'random_sample' or draw(
-      st.integers(0, 15 if fam in GP else 7)) != 0
+      st.integers(0, 15 if fam in GP else (3 if fam in ('bocs', 'harmonica')
+                                           else 7))) != 0
   # NSGA2 is documented to raise on trials without metrics (infeasible), so
   # those are kept rare for it: the session ends at the first refusal.
   rare_inf = fam == 'nsga2'
   spec = draw(_space_for(fam, want_supported))
+  if want_supported and fam not in GP and fam not in ('bocs', 'harmonica',
+                                                      'cmaes'):
+    # INTEGER ranges whose bounds are not exactly representable in float32
+    # (the default feature dtype): decoding must still land inside them
+    ints = [p for p in spec['params'] if p['kind'] == 'INTEGER'
+            and p.get('scale') in (None, 'LINEAR')]
+    if ints and draw(st.integers(0, 5)) == 0:
+      p = ints[0]
+      lo = draw(st.sampled_from([100000000, 2 ** 31 - 9, -(2 ** 31) + 3,
+                                 16777217, 2 ** 40 + 1]))
+      p.update(lo=lo, hi=lo + draw(st.sampled_from([1, 5, 12])))
+      p.pop('default', None)
+      p['big_integer'] = True
   metrics = draw(_metrics(fam, want_supported))
   nm = len(metrics)
   opts = draw(_opts_for(fam)) if entry == 'designer' else {}
@@ -309,6 +329,33 @@ def slow_strategy():
 
 def service_strategy():
   return _session(SERVICE_CHEAP + ('NOT_REGISTERED',), 'service')
+
+
+@st.composite
+def _unsupported_bool_mix(draw):
+  """BOCS / Harmonica on a space that mixes booleans with other kinds, with a
+  history long enough to leave their random initial phase: the documented
+  outcome is a refusal; an answer must at least be in-domain."""
+  algo = draw(st.sampled_from(['harmonica', 'bocs']))
+  spec = draw(spaces.flat_space(2, 4, kinds=('BOOL', 'BOOL', 'INTEGER',
+                                             'CATEGORICAL', 'DOUBLE'),
+                                defaults=False).filter(
+      lambda sp: len({p['kind'] for p in sp['params']}) >= 2
+      and any(p['kind'] == 'BOOL' for p in sp['params'])))
+  metrics = draw(_metrics(algo, True))
+  n_pre = draw(st.integers(3, 13))
+  pre = [[draw(spaces.point_in(spec)), draw(_status(len(metrics)))]
+         for _ in range(n_pre)]
+  opts = draw(_opts_for(algo))
+  rounds = draw(_rounds(spec, len(metrics), algo, 3, 1, False, True))
+  return {'entry': 'designer', 'algo': algo, 'space': spec,
+          'metrics': metrics, 'opts': opts,
+          'seed': draw(st.integers(0, 2 ** 16)), 'pre': pre,
+          'rounds': rounds, 'unsupported_bool_mix': True}
+
+
+def bool_mix_strategy():
+  return _unsupported_bool_mix()
 
 
 def gp_seeding_strategy():
@@ -407,7 +454,11 @@ def _defaults_case(draw):
         p['default'] = draw(st.sampled_from([p['lo'] - 1, p['hi'] + 1]))
         break
       if p['kind'] == 'DISCRETE':
-        p['default'] = max(p['values']) + 1
+        v = max(p['values'])
+        near = v * (1 + 4e-13) if v else 4e-13
+        # clearly outside, or a float within rounding error of a feasible
+        # point (e.g. 0.1 + 0.2 for 0.3): not a member either
+        p['default'] = draw(st.sampled_from([v + 1, near]))
         break
       if p['kind'] == 'CATEGORICAL':
         p['default'] = 'not-a-category'
@@ -916,6 +967,8 @@ def check_defaults(case):
   cond = oi.is_conditional(spec)
   out.cls('via_' + via, 'conditional' if cond else 'flat',
           *spaces.classes_of(spec))
+  if any(p.get('big_integer') for p in spec['params']):
+    out.cls('integer_bounds_not_float32_exact')
   if any('default' in p for p in oi.all_params(spec)):
     out.cls('has_default')
   if case.get('twist') == 'extreme_bounds':
@@ -1024,6 +1077,9 @@ def families(tier):
                   budget={'quick': 150, 'thorough': 2000},
                   shards={'quick': 6, 'thorough': 16},
                   required_classes=req_slow),
+      core.Family('bool_mix', check_session, strategy=bool_mix_strategy,
+                  budget={'quick': 120, 'thorough': 1500},
+                  shards={'quick': 4, 'thorough': 8}),
       core.Family('service', check_session, strategy=service_strategy,
                   budget={'quick': 450, 'thorough': 8000},
                   shards={'quick': 8, 'thorough': 16},
